@@ -1,4 +1,52 @@
-From Coq Require Import ZArith List Bool.
-From PW Require Import Model.Base.
-Theorem C19_placeholder : True. Proof. exact I. Qed.
-Print Assumptions C19_placeholder.
+(* C19 — Rejections are signalled through the library's own exception hierarchy. *)
+From Coq Require Import ZArith List Bool String.
+From PW Require Import Model.Base Model.Cbor Model.AuthData Model.Oracles Model.ClientData Model.CredJson Model.Cose
+  Model.Formats Model.VerifyAuth Model.VerifyReg Generated.Constants Proofs.ExnProofs Proofs.AuthDataProofs Proofs.JsonProofs.
+Import ListNotations.
+Open Scope Z_scope.
+
+(* every exception class the exceptions module defines derives from the single base (reflective export, finite) *)
+Theorem C19_hierarchy : forallb derives_from_base exception_classes = true /\ exception_base = "WebAuthnException"%string.
+Proof. exact hierarchy_ok. Qed.
+Print Assumptions C19_hierarchy.
+
+Theorem C19_classes_are_the_models : map fst exception_classes = lib_names.
+Proof. exact class_list_is_enum. Qed.
+Print Assumptions C19_classes_are_the_models.
+
+(* a well-formed authentication response is accepted or rejected with a library exception - for every
+   reason the verifier has: id, type, client data type/challenge/origin/token binding, RP ID hash, UP, UV,
+   counter, algorithm, signature, backup flags *)
+Theorem C19_semantic_auth : forall O P c, auth_wf O P c -> lib_or_ok (verify_auth_rec O P c).
+Proof. exact auth_rejections_in_hierarchy. Qed.
+Print Assumptions C19_semantic_auth.
+
+Theorem C19_semantic_reg : forall O P c, reg_wf O P c ->
+  (forall ao att, parse_att_object (rcr_att_obj c) = Ok ao -> ad_att (ao_auth_data ao) = Some att -> len (ac_aaguid att) = 16) ->
+  lib_or_ok (verify_reg_rec O P c).
+Proof. exact reg_rejections_in_hierarchy. Qed.
+Print Assumptions C19_semantic_reg.
+
+(* the parsers the property names: total into {record, library exception} *)
+Theorem C19_authenticator_data_parser : forall v,
+  match parse_auth_data v with
+  | Ok _ | Err (Lib InvalidAuthenticatorDataStructure) | Err (Lib InvalidCBORData) | Err Unmodelled => True
+  | _ => False
+  end.
+Proof. exact parse_auth_data_total. Qed.
+Print Assumptions C19_authenticator_data_parser.
+
+Theorem C19_cbor_helper : forall s, match parse_cbor s with Ok _ | Err (Lib InvalidCBORData) | Err Unmodelled => True | _ => False end.
+Proof. exact parse_cbor_outcome. Qed.
+Print Assumptions C19_cbor_helper.
+
+Theorem C19_credential_json_parsers : forall O inp, loads_ok O inp ->
+  cred_outcome_ok InvalidAuthenticationResponse (parse_auth_cred_json O inp) /\
+  cred_outcome_ok InvalidRegistrationResponse (parse_reg_cred_json O inp).
+Proof. intros O inp H. split; [apply parse_auth_cred_total|apply parse_reg_cred_total]; exact H. Qed.
+Print Assumptions C19_credential_json_parsers.
+
+Theorem C19_no_failure_value : forall O P fmt st adr cdj ad att u,
+  verify_statement O P fmt st adr cdj ad att = Ok u -> u = tt.
+Proof. exact no_false_result. Qed.
+Print Assumptions C19_no_failure_value.
